@@ -49,7 +49,7 @@ PROPS = {
     "C04": dict(
         title="At most max_concurrency pooled nodes in flight; resources decide the thread",
         core=["SCH-BOUND", "SCH-COUNT"],
-        aux=["SCH-ARMS", "VAL-MAXC", "SIB-FWD-SCHED", "SCH-POOLSIZE", "VAL-CONF"],
+        aux=["SCH-ARMS", "VAL-MAXC", "SIB-FWD-SCHED", "SCH-POOLSIZE", "VAL-CONF", "SCH-TASKDONE"],
         explanation="On every path reaching a pooled dispatch either a live guard literal implies in-flight < max or every in-flight "
                     "set was waited on since the last submission; the count covers every set that receives futures; sets shrink "
                     "only through waits; resource -> dispatch-kind mapping exhaustive and correct; max_concurrency >= 1 validated "
@@ -91,7 +91,7 @@ PROPS = {
     "C08": dict(
         title="The scheduler never idles while a ready node and a free slot both exist",
         core=["SCH-WAITSITES", "SCH-WAITMODE"],
-        aux=["SCH-GUARD", "SCH-MIXWAIT", "SCH-POOLSIZE", "SIB-FWD-SCHED"],
+        aux=["SCH-GUARD", "SCH-MIXWAIT", "SCH-POOLSIZE", "SIB-FWD-SCHED", "SCH-TASKDONE", "SCH-ARMS"],
         explanation="Every blocking wait site of the loop is under exactly one of three licences (full or nothing runnable; "
                     "sequential candidate with something in flight; sequential node just dispatched); the first two wait "
                     "FIRST_COMPLETED; the pool has max_concurrency workers. SCH-MIXWAIT reports the exception the property names.",
